@@ -5,6 +5,7 @@ pub mod runner;
 pub mod codec_case;
 pub mod inchunk;
 pub mod evo_case;
+pub mod raw_case;
 
 pub use model::{mv, ModelType, Opt};
 pub use inchunk::InChunk;
